@@ -29,8 +29,11 @@ func main() { hlib.Main("C08", run) }
 
 func run(c *hlib.Ctx) {
 	g := &G{c}
+	// The hierarchy cases are cheap on both sides (≈ 20 µs per line), so every share of the budget is
+	// multiplied: -n 300 gives ≈ 3 500 lines, -n 4000 ≈ 47 000 lines.
+	const mult = 8
 	share := func(pct int) int {
-		n := c.N * pct / 100
+		n := c.N * pct / 100 * mult
 		if n < 4 {
 			n = 4
 		}
@@ -61,7 +64,7 @@ func run(c *hlib.Ctx) {
 	// 5. real geometry
 	g.genReal(share(25))
 	// 6. k-d trees
-	g.genKD(share(15))
+	g.genKD(2 * share(15))
 }
 
 // ---------------------------------------------------------------------------
